@@ -584,7 +584,7 @@ def install_more(models):
         e = ch.e
         return SB(z3.Or(z3.And(z3.UGE(e, 65), z3.ULE(e, 90)), z3.And(z3.UGE(e, 97), z3.ULE(e, 122)), z3.And(z3.UGE(e, 48), z3.ULE(e, 57))))
 
-    @R(r"^str::<impl str>::replace::<char>$|^core::str::<impl str>::replace::<char>$|^alloc::str::<impl str>::replace::<char>$")
+    @R(r"^(std::|core::|alloc::)?str::<impl str>::replace::<char>$")
     def _replace_char(ex, c, a):
         sl = as_slice(a[0]); frm = a[1]; to = as_slice(a[2]).chars()
         out = []
@@ -655,6 +655,12 @@ def install_more(models):
                 return err()
         v = z3.simplify(z3.Extract(bits - 1, 0, val))
         return EnumV("Result", 0, [v.as_long() if z3.is_bv_value(v) else SV(v, bits)])
+
+    @R(r"^(core::|std::)?str::<impl str>::parse::<u(128|64|32|size)>$")
+    def _parse_uint(ex, c, a):
+        bits = re.search(r"parse::<u(\d+|size)>", c).group(1)
+        bits = "64" if bits == "size" else bits
+        return _from_str_radix(ex, f"core::num::<impl u{bits}>::from_str_radix", [a[0], 10])
 
     @R(r"^char::methods::<impl char>::to_digit$")
     def _to_digit(ex, c, a):
